@@ -187,8 +187,18 @@ def mdscale_case(seed: int) -> Case:
     k2 = rng.choice([f for f in FACTORS if f != k1])
     viol = None
     doc = compile_markdown(text)
+    # independent expectation for the title count and the prose values: exactly k times the written numbers
+    from recipe_grid.renderer.html import render_number
+    import re as _re
+    written = [n, n, Fraction(5, 2), 0.75, 3]
+    for k in (k1, k2):
+        got_vals = _re.findall(r'<span class="rg-scaled-value">(.*?)</span>', compile_markdown(text).render(k), flags=_re.S)[:5]
+        want_vals = [render_number(v * k) for v in written]
+        if got_vals != want_vals:
+            viol = f"at factor {k} the title count / prose values show {got_vals}, exactly k times the written numbers is {want_vals}"
+            break
     seq = [k1, k2, 1, k1]
-    for k in seq:
+    for k in (seq if viol is None else []):
         got = doc.render(k)
         fresh = compile_markdown(text).render(k)
         if _scaled_values(got) != _scaled_values(fresh) or got != fresh:
